@@ -946,3 +946,28 @@ P('C18-O', 'C11', 'C11.R2'); P('C18-P', 'C18', 'C18.R5')
 P('C19-O', 'C19', 'C19.R1'); P('C19-P', 'C19', 'C19.R1')
 P('C20-O', 'C20', 'C20.R2'); P('C20-P', 'C11', 'C11.R2')
 CORPUS.append({'id': 'S/C16-O-silent', 'props': ['C20'], 'rule': None, 'expect': 'silent', 'edits': [], 'patch': 'seeded/C16-O/patch.diff'})   # a subclass with its own __str__ is not what p_error raises
+
+# round 10 (observability / configuration plumbing that breaks the property through the plumbing, Q/R; C19 was not delivered).
+# Not reported by their own property: C05-R (a non-reentrant lock taken again by __repr__ inside a WARNING log line: C02.R4 reports the
+# log line), C07-R / C10-R's twin (a shared default names dict: C10.R3, C01.R4), C09-R (`left` precedence for IF/ELSE: C06.R1), C12-R
+# (writes of equal values skipped by the scope stack: C10.R1), C14-R (deepcopy memo kept per evaluation: C12.R1), C17-R (a cursor object on
+# the tree that remembers where the last run stopped: C09.R1).  Not reported at all: C11-R (a lock held by a suspended generator).
+P('C01-Q', 'C01', 'C01.R4'); P('C01-R', 'C01', 'C01.R6')
+P('C02-Q', 'C02', 'C02.R4'); P('C02-R', 'C02', 'C02.R3')
+P('C03-Q', 'C03', 'C03.R4'); P('C03-R', 'C03', 'C03.R3')
+P('C04-Q', 'C04', 'C04.R4'); P('C04-R', 'C04', 'C04.R2')
+P('C05-Q', 'C05', 'C05.R1'); P('C05-R', 'C02', 'C02.R4')
+P('C06-Q', 'C06', 'C06.R8'); P('C06-R', 'C06', 'C06.R2')
+P('C07-Q', 'C07', 'C07.R8'); P('C07-R', 'C10', 'C10.R3')
+P('C08-Q', 'C08', 'C08.R3'); P('C08-R', 'C08', 'C08.R3')
+P('C09-Q', 'C09', 'C09.R1'); P('C09-R', 'C06', 'C06.R1')
+P('C10-Q', 'C10', 'C10.R1'); P('C10-R', 'C10', 'C10.R3')
+P('C11-Q', 'C11', 'C11.R1')
+P('C12-Q', 'C12', 'C12.R1'); P('C12-R', 'C10', 'C10.R1')
+P('C13-Q', 'C13', 'C13.R1'); P('C13-R', 'C13', 'C13.R3')
+P('C14-Q', 'C14', 'C14.R3'); P('C14-R', 'C12', 'C12.R1')
+P('C15-Q', 'C15', 'C15.R5'); P('C15-R', 'C15', 'C15.R7')
+P('C16-Q', 'C16', 'C16.R7'); P('C16-R', 'C16', 'C16.R9')
+P('C17-Q', 'C17', 'C17.R3'); P('C17-R', 'C09', 'C09.R1')
+P('C18-Q', 'C18', 'C18.R1'); P('C18-R', 'C18', 'C18.R5')
+P('C20-Q', 'C20', 'C20.R1'); P('C20-R', 'C20', 'C20.R2')
